@@ -464,7 +464,7 @@ func (e *schedEngine) settle() {
 				c.Release(runs[k], Action{Kind: "go"})
 				c.Quiesce()
 			}
-			if e.prof.PreemptPct > 0 && stmtPoints > 0 && !e.hasConds && c.Ch.Bool(1, 2, "midpass-statement") {
+			if e.prof.PreemptPct > 0 && stmtPoints > 0 && !e.hasConds && c.Ch.Bool(3, 4, "midpass-statement") {
 				// (not in worlds with stage conditions: those are real forks, during which the
 				// runtime - not the seed - decides what the other goroutines get done, so that the
 				// number of passes before this visit is not a function of the seed)
